@@ -639,10 +639,29 @@ class InspectFunction(object):
                     # _logger.debug(f"inspect_class: {fis_}")
 
         body_sig = dds_hash(class_body_lines)
-        # All the sub-dependencies are handled with method introspections
+        # The sub-dependencies of the methods are handled with method introspections.
+        # The statements of the class body itself (class attributes) may read module variables.
+        class_stmts = [
+            elem
+            for elem in node.body
+            if not isinstance(elem, (ast.FunctionDef, ast.AsyncFunctionDef))
+        ]
+        class_local_vars = set(cls.get_local_vars(class_stmts, arg_ctx, fun_path))
+        class_vdeps = ExternalVarsVisitor(mod, gctx, class_local_vars)
+        for elem in class_stmts:
+            class_vdeps.visit(elem)
+        class_ext_deps = sorted(
+            class_vdeps.vars.values(), key=lambda ed: ed.local_path
+        )
 
         return_sig = dds_hash_commut(
-            [(_hash_key_body_sig, body_sig)] + _fis_to_siglist(method_fis)
+            [(_hash_key_body_sig, body_sig)]
+            + _fis_to_siglist(method_fis)
+            + [
+                (HK(f"ext_variable_{ed.local_path}"), ed.sig)
+                for ed in class_ext_deps
+                if ed.sig is not None
+            ]
         )
         assert return_sig is not None
 
@@ -650,8 +669,8 @@ class InspectFunction(object):
             arg_input=arg_ctx,
             fun_body_sig=body_sig,
             fun_return_sig=return_sig,
-            # The dependencies are for now all in the function bodies
-            external_deps=[],
+            # The dependencies of the methods are in the function bodies
+            external_deps=class_ext_deps,
             parsed_body=method_fis,
             store_path=None,  # No store path can be associated by default to a class
             fun_path=fun_path,
